@@ -427,6 +427,7 @@ Theorem find_synsets_iff : forall d id forms pos ili ids norm saf q,
              /\ (forms <> [] ->
                  exists f _s, In f (matching_forms d forms norm saf) /\ In _s (t_senses d)
                               /\ se_entry_rowid _s = fm_entry_rowid f
+                              /\ (if nonempty ids then z_in (se_lexicon_rowid _s) ids else true) = true
                               /\ find_by sy_rowid (se_synset_rowid _s) (t_synsets d) = Some ss).
 Proof.
   intros d id forms pos ili ids norm saf q. unfold find_synsets.
@@ -435,17 +436,18 @@ Proof.
     rewrite in_map_iff. split.
     + intros [[k q0] [E H]]. simpl in E. subst q0. apply stable_sort_In in H. apply dedup_In in H.
       apply in_flat_map in H. destruct H as [f [Hf H]]. apply in_flat_map in H. destruct H as [_s [Hs H]].
-      apply filter_In in Hs. destruct Hs as [Hs Es]. apply Z.eqb_eq in Es.
+      apply filter_In in Hs. destruct Hs as [Hs Es]. apply andb_true_iff in Es. destruct Es as [Es El].
+      apply Z.eqb_eq in Es.
       destruct (find_by sy_rowid (se_synset_rowid _s) (t_synsets d)) as [ss|] eqn:Ess; [|destruct H].
       destruct (synset_conditions d id pos ili ids ss) eqn:Ec; [|destruct H].
       destruct H as [E|[]]. injection E as _ <-.
       exists ss. split; [apply find_by_Some in Ess; tauto|]. split; [reflexivity|]. split; [exact Ec|].
       intros _. exists f, _s. tauto.
-    + intros [ss [Hss [-> [Hc Hf]]]]. destruct (Hf Hne) as [f [_s [Hfm [Hs [Es Ess]]]]].
+    + intros [ss [Hss [-> [Hc Hf]]]]. destruct (Hf Hne) as [f [_s [Hfm [Hs [Es [El Ess]]]]]].
       set (visited := flat_map _ (matching_forms d forms norm saf)).
       assert (Hv : In ((se_entry_rowid _s, se_entry_rank _s), synset_columns d ss) visited).
       { unfold visited. apply in_flat_map. exists f. split; [exact Hfm|]. apply in_flat_map. exists _s.
-        split; [apply filter_In; split; [exact Hs | apply Z.eqb_eq; exact Es]|].
+        split; [apply filter_In; split; [exact Hs | apply andb_true_iff; split; [apply Z.eqb_eq; exact Es | exact El]]|].
         rewrite Ess, Hc. left. reflexivity. }
       destruct (dedup_complete _ (fun a b : (Z * option Z) * q_synset => q_synset_eqb (snd a) (snd b))
                   (fun a => proj2 (q_synset_eqb_eq _ _) eq_refl) visited _ Hv) as [[k q1] [Hq1 E1]].
